@@ -411,7 +411,8 @@ def compare(beh, info, res, tol=2e-5, log_on=True, echo_on=True):
     # The report is not part of any listed property: a disagreement is a NOTE (recorded in the evidence, no alarm) unless
     # it can only come from the evaluator-side measured flag of C06 - a variable reported more often than it has unmeasured
     # elements means a measured qubit whose flag is unset, i.e. one the evaluator would let a gate act on.
-    if "warn" in beh and "stderr" in res and not halted and shot["status"] == "ok":
+    # (the runner captures stderr per job, not per execution: only single-execution jobs can be compared)
+    if "warn" in beh and "stderr" in res and not halted and shot["status"] == "ok" and len(res["shots"]) == 1:
         import re
         got = re.findall(r"Qubit (\S+) was left unmeasured", res["stderr"])
         want_w = ["v%d" % i for i in beh["warn"]]
